@@ -22,11 +22,11 @@ def rlit(x):
 def lockstep_run(rep, cfg, rng, what="C03"):
     with impl.quiet():
         S = fr.build(cfg, "all")
-        _ = S.H_int        # build the matrices now: the shelf coefficients are (re)drawn when they are first built
-        hs = np.broadcast_to(np.asarray(S.H_shelf, dtype=float), (S.N_vials_total,)).copy()
-        L = oracle_sim.Lockstep(cfg, S, hs, rng)
-        S._rng = fr.ScriptedRng(S._rng, L.script)
-        S.run()
+        L = oracle_sim.Lockstep(cfg, S, None, rng)
+        wrap = lambda g: fr.ScriptedRng(g, L.script)
+        S._rng = wrap(S._rng)
+        with fr.patched_rng(wrap):
+            S.run()
     L.finish()
     return S, L
 
@@ -98,10 +98,11 @@ def check(rep, tier):
                 with impl.quiet():
                     S.seed_v = cfg2["seed_v"]
                     S.seed = cfg2["seed"]
-                    hs2 = np.broadcast_to(np.asarray(S.H_shelf, dtype=float), (S.N_vials_total,)).copy()
-                    L2 = oracle_sim.Lockstep(cfg2, S, hs2, rng)
-                    S._rng = fr.ScriptedRng(S._rng, L2.script)
-                    S.run()
+                    L2 = oracle_sim.Lockstep(cfg2, S, None, rng)
+                    wrap2 = lambda g: fr.ScriptedRng(g, L2.script)
+                    S._rng = wrap2(S._rng)
+                    with fr.patched_rng(wrap2):
+                        S.run()
                 L2.finish()
                 nv = len(rep.violations)
                 compare(rep, cfg2, S, L2)
